@@ -423,21 +423,56 @@ func hasNoscript(s string) bool {
 
 // Compare decides the C03 oracle for one (input, output) pair. kind=="" means equivalent.
 func Compare(in, out string, opt Options) (kind, what string) {
-	if kind, what = compareMode(in, out, &opt, false); kind != "" {
+	return Prepare(in, opt).Compare(out)
+}
+
+// Input is a parsed and flattened input text, reusable for several outputs.
+type Input struct {
+	src  string
+	opt  Options
+	flat [2][]item // by scripting mode; nil until needed
+	err  [2]error
+	done [2]bool
+}
+
+// Prepare parses the input side once.
+func Prepare(in string, opt Options) *Input { return &Input{src: in, opt: opt} }
+
+func (p *Input) side(scripting bool) ([]item, error) {
+	i := 0
+	if scripting {
+		i = 1
+	}
+	if !p.done[i] {
+		p.done[i] = true
+		t, err := Parse(p.src, p.opt.Context, scripting)
+		if err != nil {
+			p.err[i] = err
+		} else {
+			p.flat[i] = t.flatten(&p.opt, scripting)
+		}
+	}
+	return p.flat[i], p.err[i]
+}
+
+// Compare compares one output with the prepared input.
+func (p *Input) Compare(out string) (kind, what string) {
+	if kind, what = p.compareMode(out, false); kind != "" {
 		return
 	}
-	if hasNoscript(in) || hasNoscript(out) {
+	if hasNoscript(p.src) || hasNoscript(out) {
 		// Second pass with scripting enabled: noscript content is raw text there, so this
 		// pass decides that the end of every noscript element stays where it was.
-		if kind, what = compareMode(in, out, &opt, true); kind != "" {
+		if kind, what = p.compareMode(out, true); kind != "" {
 			return kind + "/scripting", what
 		}
 	}
 	return "", ""
 }
 
-func compareMode(in, out string, opt *Options, scripting bool) (string, string) {
-	ta, err := Parse(in, opt.Context, scripting)
+func (p *Input) compareMode(out string, scripting bool) (string, string) {
+	opt := &p.opt
+	a, err := p.side(scripting)
 	if err != nil {
 		return "parse-input", err.Error()
 	}
@@ -445,7 +480,7 @@ func compareMode(in, out string, opt *Options, scripting bool) (string, string) 
 	if err != nil {
 		return "parse-output", err.Error()
 	}
-	a, b := ta.flatten(opt, scripting), tb.flatten(opt, scripting)
+	b := tb.flatten(opt, scripting)
 
 	// 1. element structure (every tag re-inferred at the same place).
 	var sa, sb []item
@@ -489,6 +524,14 @@ func compareMode(in, out string, opt *Options, scripting bool) (string, string) 
 			k = "space-added"
 		case ka == kWord && kb == kWord:
 			k = "word-changed"
+			switch {
+			case i+2 < len(a) && a[i+2].k == kWord && b[i].s == a[i].s+a[i+2].s && a[i+1].k == kSpace:
+				k = "space-removed" // two words joined
+			case i+2 < len(a) && a[i+2].k == kWord && b[i].s == a[i].s+a[i+2].s && a[i+1].k == kComment:
+				k = "comment"
+			case i+2 < len(b) && b[i+2].k == kWord && a[i].s == b[i].s+b[i+2].s && b[i+1].k == kSpace:
+				k = "space-added" // a word split
+			}
 		case ka == kRaw && kb == kRaw:
 			k = "raw-changed"
 		case ka == kRaw || kb == kRaw:
